@@ -77,6 +77,19 @@ def gen_cases(d, by_name, rng, tier, has_builder=False):
     W = d['base']
     scen = []
     quick = tier == 'quick'
+    if d.get('light'):
+        # many-field declarations whose point is the per-accessor proof obligation: a thin behavioural sample
+        m = (1 << W) - 1
+        for f in d['fields']:
+            lo, n = ranges(f)[0]
+            fm = ((1 << n) - 1) << lo
+            if 'r' in f['acc']:
+                scen.append((fm, [('G', f['name'], 0)]))
+                scen.append((m ^ fm, [('G', f['name'], 0)]))
+            if 'w' in f['acc']:
+                scen.append((m, [('W', f['name'], 0, 0), ('R',)]))
+                scen.append((0, [('S', f['name'], 0, (1 << n) - 1), ('R',)]))
+        return scen
     exhaustive_get = W <= (5 if quick else 8)
     exhaustive_set = W <= (3 if quick else 5)
     for f in d['fields']:
